@@ -2213,7 +2213,7 @@ fn close_case(ctx: &mut Ctx, word: &str, cands: &[&str], n: usize, cutoff: f32) 
     let passing = ranked.len();
     let want: Vec<&str> = ranked.iter().take(n).map(|x| x.1).collect();
     if got != want {
-        let show = |v: &[&str]| v.iter().map(|c| if c.len() > 24 { format!("{}..({} bytes)", &c[..8], c.len()) } else { c.to_string() }).collect::<Vec<_>>().join(",");
+        let show = |v: &[&str]| v.iter().map(|c| if c.len() > 24 { format!("{}..({} bytes)", c.chars().take(8).collect::<String>(), c.len()) } else { c.to_string() }).collect::<Vec<_>>().join(",");
         ctx.violation("C18", &req, format!("returned [{}] but the exhaustive ranking gives [{}]", show(&got), show(&want)));
     }
     if passing >= 2 && n >= 1 {
